@@ -58,11 +58,27 @@ def interp(prog, counts, log=None, extra_models=None):
     """counts: iterator of scenario counts handed out for casts of `RND(a) - RND(b)`"""
     # any other use of floor (a snapping step, say) is an opaque function of its argument
     m_floor = S._opaque("FLOOR")
-    models = {"raster::round_up_to_half": m_round, "f32>::recip": S.m_recip,
-              "f32>::floor": m_floor, "$float::fallback::floor": m_floor, "$::floorf": m_floor, "$float::mm::floor": m_floor, "$float::libm::floor": m_floor}
+    from . import constfold as CF
+    models = dict(CF.MODELS)          # std containers / iterator adaptors / mem::swap ...
+    models.update({"raster::round_up_to_half": m_round, "f32>::recip": S.m_recip,
+              "f32>::floor": m_floor, "$float::fallback::floor": m_floor, "$::floorf": m_floor, "$float::mm::floor": m_floor, "$float::libm::floor": m_floor})
     models.update(extra_models or {})
     it = S.interp(prog, models=models)
     counts = iter(counts)
+    # `floor(x + 0.5) + 0.5` written out (round_up_to_half inlined at its call sites) is the same opaque rounding function
+    plain_binop = it.binop
+    half = ("f", 0.5)
+
+    def binop(op, a, b, ty):
+        r = plain_binop(op, a, b, ty)
+        if isinstance(r, tuple) and r[0] == "symop" and r[1] == "Add":
+            for fl, h in ((r[2], r[3]), (r[3], r[2])):
+                if h == half and isinstance(fl, tuple) and fl[0] == "symop" and fl[1] == "FLOOR":
+                    inner = fl[2]
+                    if isinstance(inner, tuple) and inner[0] == "symop" and inner[1] == "Add" and half in (inner[2], inner[3]):
+                        return ("symop", "RND", inner[3] if inner[2] == half else inner[2], None)
+        return r
+    it.binop = binop
 
     def hook(v, to):
         if isinstance(v, tuple) and v[0] == "f":
